@@ -27,6 +27,8 @@ Non-trivial = the history contains a fault operation followed by at least N furt
         if tier == Tier::Quick { 900 } else { 14400 },
     );
     s.case_limit_s = 300;
+    // the pool half runs in the shuttle engine
+    s.foreign_workers = Some((super::c07::sched_bin(), 4));
     s
 }
 
@@ -231,6 +233,7 @@ pub fn run(ctx: &Ctx) {
 pub fn replay(ctx: &Ctx, section: &str, case: &Value) -> Verdict {
     crate::fw::inproc::init_env();
     let tree = match fixed_docroot() { Ok(t) => t, Err(e) => return Verdict::fail("replay-docroot-failed", e.to_string()) };
+    if section == "pool-under-failing-jobs" { return super::c07::replay_sched(ctx, section, case); }
     if section == "transport-faults" { return match serde_json::from_value::<FaultCase>(case.clone()) { Ok(c) => eval_fault(ctx, &c), Err(e) => Verdict::fail("replay-unreadable", e.to_string()) }; }
     match serde_json::from_value::<History>(case.clone()) { Ok(h) => run_history(ctx, &tree.root, &h), Err(e) => Verdict::fail("replay-unreadable", e.to_string()) }
 }
